@@ -181,3 +181,111 @@ def alloc_taint(ctx):
                               'capacity-overflow panic; worst context: %s' % (expr_str(size)[:70], r, where))
     if n == 0:
         ctx.anchor_missing('allocation sites reachable from the decoders')
+
+
+# --------------------------------------------------------------------------- READ-ERR-LATCH
+
+@rule('READ-ERR-LATCH', ['C06'], floor=3)
+def read_err_latch(ctx):
+    """A reader that owns LZ decoder state (an LZMADecoder, or a nested LZMAReader) never runs that decoder again
+    after one of its `read` calls returned an error: the decoder is left half-updated by a failed symbol
+    (stored distance outside the window, output not flushed, source moved out of `self`), and a second call
+    panics or returns garbage as Ok. Structure required: `read` (or the method it forwards to) starts with a
+    test of a sticky field that returns Err at once, and every other path on which `read` returns an Err has
+    stored into that field."""
+    from rules.units import self_field_stores
+    from lzlint.core import self_field_of, switch_edges
+    from rules.io import read_impls
+    F = ctx.facts
+    n = 0
+    for f in read_impls(F):
+        adt = F.adts.get(f.self_adt or '')
+        if not adt:
+            continue
+        ftys = [fl['ty'] for v in adt['variants'][:1] for fl in v['fields']]
+        if not any('LZMADecoder' in t or 'LZMAReader<' in t for t in ftys):
+            continue
+        n += 1
+        key = '%s:error-is-sticky' % f.key
+        # candidate functions for the entry guard: read itself and same-type methods it calls
+        cands = [f]
+        for bi, t, c in f.calls():
+            for g in F.resolve_callee(c):
+                if g.self_adt == f.self_adt and g.kind != 'closure' and g not in cands:
+                    cands.append(g)
+        guard_fields = {}
+        for g in cands:
+            pg = Prov(g)
+            for s in g.reachable:
+                if g.blocks[s]['term']['k'] != 'switch':
+                    continue
+                e = sorted(set(g.succs(s)))
+                cond = pg.operand(g.blocks[s]['term']['discr'], 0, '%d:T' % s)
+                names = set()
+                for x in expr_walk(cond):
+                    if x[0] == 'field':
+                        sf = self_field_of(x)
+                        if sf and len(sf) == 1:
+                            names.add(sf[0])
+                if not names:
+                    continue
+                # one edge leads straight to `return Err(..)` without any call to a local function
+                for tgt in e:
+                    region = g.reach_from([tgt])
+                    small = {b for b in region if g.dominates(tgt, b)}
+                    has_err = any(st['k'] == 'assign' and st['lhs']['l'] == 0 and st['rv']['r'] == 'agg' and st['rv'].get('variant_name') == 'Err'
+                                  for b in small for st in g.blocks[b]['stmts'])
+                    local_calls = any(g.blocks[b]['term']['k'] == 'call' and callee_of(g.blocks[b]['term']) and
+                                      callee_of(g.blocks[b]['term']).get('local') and
+                                      not callee_of(g.blocks[b]['term'])['path'].split('::')[-1].startswith(('error_', 'copy_error'))
+                                      for b in small)
+                    if has_err and not local_calls and len(small) <= 12:
+                        for nm in names:
+                            guard_fields.setdefault(nm, (g, s))
+        if not guard_fields:
+            ctx.violation(key, f.loc(0), 'no sticky error test at the start of read: after an Err the LZ decoder is run again on its half-updated '
+                          'state (panic in LZDecoder::get_byte / flush, "inner reader not set", or garbage returned as Ok)')
+            continue
+        # stores to a guard field in read itself
+        stores = {b2 for b2, si, name, rv in self_field_stores(f) if name in guard_fields}
+        prov = Prov(f)
+        # Err-carrying returns of read: explicit Err, from_residual, or a Result of a same-type call returned as it is
+        bad = []
+        reach = f.reach_from([0], stop=stores)
+        for b in reach:
+            blk = f.blocks[b]
+            explicit = any(st['k'] == 'assign' and st['lhs']['l'] == 0 and not st['lhs']['p'] and st['rv']['r'] == 'agg' and
+                           st['rv'].get('variant_name') == 'Err' for st in blk['stmts'])
+            tt = blk['term']
+            resid = tt['k'] == 'call' and tt['dest']['l'] == 0 and callee_of(tt) and callee_of(tt)['path'].endswith('from_residual')
+            tail = tt['k'] == 'call' and tt['dest']['l'] == 0 and not tt['dest']['p'] and callee_of(tt) and \
+                any(g.self_adt == f.self_adt for g in F.resolve_callee(Callee(callee_of(tt))))
+            if explicit or resid or tail:
+                # the guard's own early return is fine
+                if any(gf is f and f.dominates(gs, b) and b != gs and explicit for gf, gs in guard_fields.values()):
+                    continue
+                if tail and any(gf in F.resolve_callee(Callee(callee_of(tt))) for gf, gs in guard_fields.values()) and not stores:
+                    # forwards to the method that holds the guard but never stores: only fine if that method stores itself
+                    callee_stores = any(name in guard_fields for gf, gs in guard_fields.values() for b2, si, name, rv in self_field_stores(gf))
+                    if callee_stores:
+                        continue
+                bad.append(b)
+        # a Result obtained from a same-type method and handed back through a local (`let r = self.step(); r`)
+        from rules.io import value_closure
+        for bi, t, c in f.calls():
+            if t['dest']['p'] or not any(g.self_adt == f.self_adt for g in F.resolve_callee(c)):
+                continue
+            if 'Result' not in f.local_ty(t['dest']['l']):
+                continue
+            if 0 in value_closure(f, {t['dest']['l']}) and t['dest']['l'] != 0:
+                after = f.reach_from(f.succs(bi), stop=stores)
+                if any(b in after for b in f.return_blocks()):
+                    # unless the callee itself holds guard and store (LZMA2Reader::read_decode style is handled above)
+                    bad.append(bi)
+        if bad:
+            ctx.violation(key, f.loc(sorted(bad)[0]), 'read can return an error (e.g. at %s) without recording it in %s: the next call runs the decoder '
+                          'again on its half-updated state' % (f.loc(sorted(bad)[0]), '/'.join(sorted(guard_fields))))
+        else:
+            ctx.ok(key, f.loc(0), 'errors are recorded in `%s`, which is tested before the decoder runs' % '/'.join(sorted(guard_fields)))
+    if n == 0:
+        ctx.anchor_missing('readers owning LZ decoder state')
